@@ -44,7 +44,7 @@ struct OpResult {
     std::vector<std::string> violations; // "oracle|detail"
     uint64_t steps = 0; int expansions = -1; int growth_reqs = 0, growth_failed = 0;
     bool permr_changed = false; bool f2_bit_equal = false;
-    long double ident_ratio = 0, resid_ratio = 0;
+    long double ident_ratio = 0, resid_ratio = 0; bool overflow_skipped = false;
     std::vector<GrowthEvent> growth_log;
     long query_estimate = 0;
     long lwork_used = 0;
@@ -459,7 +459,10 @@ template <class K> struct World {
         }
         if (serr.empty() && have_factors && !ilu && n <= cfg.dense_limit && (cfg.chk_identity || cfg.chk_residual)) {
             std::vector<cx> Ad; int am, an; dense_A<K>(&s.A, Ad, am, an);
-            if ((r.cls == XC_OK || r.cls == XC_ILLCOND) && cfg.chk_identity && factored_now) {
+            std::vector<cx> Ld0, Ud0; dense_LU<K>(&s.L, &s.U, n, n, Ld0, Ud0);
+            bool ovf = overflow_plausible<K>(Ld0, Ud0, Ad);
+            if (ovf) r.overflow_skipped = true;
+            if (!ovf && (r.cls == XC_OK || r.cls == XC_ILLCOND) && cfg.chk_identity && factored_now) {
                 IdentityStats st;
                 double th = (o.fact == SamePattern_SameRowPerm) ? 0.0 : o.thresh;
                 std::string e = check_identity<K>(Ad, n, n, &s.L, &s.U, s.perm_r, s.perm_c, th, true, &st);
@@ -471,8 +474,8 @@ template <class K> struct World {
                 long k = r.info - 1;
                 if (k >= 0 && k < n && Ud[(size_t)k + (size_t)k * n] != cx(0)) viol(r, "singular-pivot", "info=" + std::to_string(r.info) + " but U(info,info) is not exactly zero");
             }
-            if (solved && cfg.chk_residual) {
-                std::vector<cx> Ld, Ud; dense_LU<K>(&s.L, &s.U, n, n, Ld, Ud);
+            if (!ovf && solved && cfg.chk_residual) {
+                std::vector<cx> &Ld = Ld0, &Ud = Ud0;
                 bool rowequ = s.equed[0] == 'R' || s.equed[0] == 'B', colequ = s.equed[0] == 'C' || s.equed[0] == 'B';
                 int trant = o.trans; bool notran = (o.trans == NOTRANS);
                 if (s.storage == 1) { trant = notran ? 1 : 0; notran = !notran; }
@@ -485,9 +488,12 @@ template <class K> struct World {
                 }
                 std::vector<double> be; if (o.refine != NOREFINE) for (int j = 0; j < a.nrhs; j++) be.push_back((double)a.berr[j]);
                 long double mr = 0;
-                std::string e = check_residual<K>(Ad, n, Ld, Ud, s.perm_r, s.perm_c, trant, Xh, Bh, a.nrhs, be.empty() ? nullptr : be.data(), &mr);
-                r.resid_ratio = mr;
-                if (!e.empty()) viol(r, "residual", e);
+                if (overflow_plausible<K>(Xh, Bh, std::vector<cx>())) r.overflow_skipped = true;
+                else {
+                    std::string e = check_residual<K>(Ad, n, Ld, Ud, s.perm_r, s.perm_c, trant, Xh, Bh, a.nrhs, be.empty() ? nullptr : be.data(), &mr);
+                    r.resid_ratio = mr;
+                    if (!e.empty()) viol(r, "residual", e);
+                }
             }
         }
         StatFree(&a.stat);
@@ -533,17 +539,20 @@ template <class K> struct World {
         if (r.cls != XC_OK && memcmp(b_in.data(), a.b, b_in.size() * sizeof(S)) != 0) viol(r, "singular-b", "B changed although no solve was possible");
         if (serr.empty() && have && r.cls == XC_OK && n <= cfg.dense_limit && (cfg.chk_identity || cfg.chk_residual)) {
             std::vector<cx> Ad; int am, an; dense_A<K>(&s.A, Ad, am, an);
-            if (cfg.chk_identity) { IdentityStats st; std::string e = check_identity<K>(Ad, n, n, &s.L, &s.U, s.perm_r, s.perm_c, o.thresh, true, &st); r.ident_ratio = st.max_ratio; if (!e.empty()) viol(r, "identity", e); }
-            if (cfg.chk_residual && a.nrhs > 0) {
-                std::vector<cx> Ld, Ud; dense_LU<K>(&s.L, &s.U, n, n, Ld, Ud);
+            std::vector<cx> Ld0, Ud0; dense_LU<K>(&s.L, &s.U, n, n, Ld0, Ud0);
+            bool ovf = overflow_plausible<K>(Ld0, Ud0, Ad); if (ovf) r.overflow_skipped = true;
+            if (!ovf && cfg.chk_identity) { IdentityStats st; std::string e = check_identity<K>(Ad, n, n, &s.L, &s.U, s.perm_r, s.perm_c, o.thresh, true, &st); r.ident_ratio = st.max_ratio; if (!e.empty()) viol(r, "identity", e); }
+            if (!ovf && cfg.chk_residual && a.nrhs > 0) {
+                std::vector<cx> &Ld = Ld0, &Ud = Ud0;
                 std::vector<cx> Xh((size_t)n * a.nrhs), Bh((size_t)n * a.nrhs);
                 for (int j = 0; j < a.nrhs; j++) for (int i = 0; i < n; i++) {
                     S xv = a.b[i + (size_t)j * a.ld], bv = b_in[i + (size_t)j * a.ld];
                     Xh[i + (size_t)j * n] = cx((ld)ScalarOps<S>::re(xv), (ld)ScalarOps<S>::im(xv)); Bh[i + (size_t)j * n] = cx((ld)ScalarOps<S>::re(bv), (ld)ScalarOps<S>::im(bv));
                 }
                 long double mr = 0;
-                std::string e = check_residual<K>(Ad, n, Ld, Ud, s.perm_r, s.perm_c, s.storage == 1 ? 1 : 0, Xh, Bh, a.nrhs, nullptr, &mr);
-                r.resid_ratio = mr; if (!e.empty()) viol(r, "residual", e);
+                if (overflow_plausible<K>(Xh, Bh, std::vector<cx>())) r.overflow_skipped = true;
+                else { std::string e = check_residual<K>(Ad, n, Ld, Ud, s.perm_r, s.perm_c, s.storage == 1 ? 1 : 0, Xh, Bh, a.nrhs, nullptr, &mr);
+                r.resid_ratio = mr; if (!e.empty()) viol(r, "residual", e); }
             }
         }
         StatFree(&a.stat); Destroy_SuperMatrix_Store(&a.B); rt_caller_free(a.b);
@@ -608,8 +617,10 @@ template <class K> struct World {
             if (serr.empty() && cfg.capture && r.cls == XC_OK) { sn.add("perm_c", s.perm_c, n * sizeof(int)); sn.add("etree", s.etree, n * sizeof(int)); sn.add("perm_r", s.perm_r, m * sizeof(int)); snap_lu(s, sn); snap_A(s, sn, "post"); sn.val("stat.expansions", a.stat.expansions); }
             if (serr.empty() && !ilu && r.cls == XC_OK && cfg.chk_identity && std::max(m, n) <= cfg.dense_limit) {
                 std::vector<cx> Ad; int am, an; dense_A<K>(&s.A, Ad, am, an);
-                IdentityStats st; std::string e = check_identity<K>(Ad, m, n, &s.L, &s.U, s.perm_r, s.perm_c, o.thresh, true, &st);
-                r.ident_ratio = st.max_ratio; if (!e.empty()) viol(r, "identity", e);
+                std::vector<cx> Ld0, Ud0; dense_LU<K>(&s.L, &s.U, m, n, Ld0, Ud0);
+                if (overflow_plausible<K>(Ld0, Ud0, Ad)) r.overflow_skipped = true;
+                else { IdentityStats st; std::string e = check_identity<K>(Ad, m, n, &s.L, &s.U, s.perm_r, s.perm_c, o.thresh, true, &st);
+                r.ident_ratio = st.max_ratio; if (!e.empty()) viol(r, "identity", e); }
             }
         }
         // solve stages (square, successful, stage bit 0)
@@ -638,8 +649,10 @@ template <class K> struct World {
                     Xh[i + (size_t)j * n] = cx((ld)ScalarOps<S>::re(xv), (ld)ScalarOps<S>::im(xv)); Bh[i + (size_t)j * n] = cx((ld)ScalarOps<S>::re(bv), (ld)ScalarOps<S>::im(bv));
                 }
                 std::vector<double> be; if (o.stages & 2) for (int j = 0; j < a.nrhs; j++) be.push_back((double)a.berr[j]);
-                long double mr = 0; std::string e = check_residual<K>(Ad, n, Ld, Ud, s.perm_r, s.perm_c, o.trans, Xh, Bh, a.nrhs, be.empty() ? nullptr : be.data(), &mr);
-                r.resid_ratio = mr; if (!e.empty()) viol(r, "residual", e);
+                long double mr = 0;
+                if (overflow_plausible<K>(Ld, Ud, Ad) || overflow_plausible<K>(Xh, Bh, std::vector<cx>())) r.overflow_skipped = true;
+                else { std::string e = check_residual<K>(Ad, n, Ld, Ud, s.perm_r, s.perm_c, o.trans, Xh, Bh, a.nrhs, be.empty() ? nullptr : be.data(), &mr);
+                r.resid_ratio = mr; if (!e.empty()) viol(r, "residual", e); }
             }
             Destroy_SuperMatrix_Store(&a.B); Destroy_SuperMatrix_Store(&a.X); rt_caller_free(a.b); rt_caller_free(a.x); rt_caller_free(a.ferr); rt_caller_free(a.berr);
         }
